@@ -20,6 +20,7 @@ from ..effects import Effects, MODELS_PKG
 from ..index import CallGraph, Index
 
 MODELS_DIR = 'dashlive/server/models'
+HANDLERS_DIR = 'dashlive/server/requesthandler'
 
 
 @dataclass
@@ -567,6 +568,176 @@ def _is_model_query(call: ast.Call, models: dict[str, Model]) -> bool:
     return last in models or 'session' in recv or 'query' in recv or recv.endswith(')')
 
 
+def r17_7(rep: Report, idx: Index, models: dict[str, Model]) -> None:
+    """rows are looked up by the kind of value the column holds: in `Model.get(col=v)` (get / get_one /
+    filter_by) where the value is a local whose every source is a column read `<row>.<c>` - directly,
+    through a set / list / dict-key collection it was put into, or through a loop over that collection -
+    the column c must be `col` itself, or a foreign key / primary key pair (`pk` <-> `<x>_pk`).  Looking a
+    row up by `pk` with track ids finds an unrelated row (or none): the deletion that follows removes a
+    row the operation does not own."""
+    rid = 'R17.7'
+    all_cols = {c for m in models.values() for c in m.columns}
+    n_sites = 0
+    for q, f in sorted(idx.functions.items()):
+        if not (f.rel.startswith(HANDLERS_DIR) or f.rel.startswith(MODELS_DIR)):
+            continue
+        fn = f.node
+
+        def col_of(e: ast.AST) -> str | None:
+            if isinstance(e, ast.Attribute) and e.attr in all_cols and isinstance(e.value, (ast.Name, ast.Attribute)):
+                return e.attr
+            return None
+
+        def kinds(e: ast.AST, depth: int = 0) -> set[str] | None:
+            """column kinds the value can have; None = unknown source"""
+            if depth > 6:
+                return None
+            c = col_of(e)
+            if c is not None:
+                return {c}
+            if isinstance(e, ast.Name):
+                out: set[str] = set()
+                found = False
+                for n in ast.walk(fn):
+                    if isinstance(n, (ast.Assign, ast.AnnAssign)) and getattr(n, 'value', None) is not None:
+                        tg = n.targets[0] if isinstance(n, ast.Assign) else n.target
+                        if isinstance(tg, ast.Name) and tg.id == e.id:
+                            found = True
+                            k = elem_kinds(n.value, depth + 1) if is_collection(n.value) else kinds(n.value, depth + 1)
+                            if k is None:
+                                return None
+                            out |= k
+                    if isinstance(n, (ast.For, ast.comprehension)) and isinstance(n.target, ast.Name) and n.target.id == e.id:
+                        found = True
+                        k = elem_kinds(n.iter, depth + 1)
+                        if k is None:
+                            return None
+                        out |= k
+                if e.id in {a.arg for a in fn.args.args + fn.args.kwonlyargs}:
+                    return None
+                return out if found else None
+            return None
+
+        def is_collection(e: ast.AST) -> bool:
+            return isinstance(e, (ast.Set, ast.List, ast.Tuple, ast.SetComp, ast.ListComp, ast.DictComp, ast.Dict)) or (
+                isinstance(e, ast.Call) and isinstance(e.func, ast.Name) and e.func.id in ('set', 'list', 'sorted', 'tuple'))
+
+        def elem_kinds(e: ast.AST, depth: int = 0) -> set[str] | None:
+            """kinds of the elements (for a dict: of the keys) of a collection expression"""
+            if depth > 6:
+                return None
+            if isinstance(e, (ast.Set, ast.List, ast.Tuple)):
+                out: set[str] = set()
+                for x in e.elts:
+                    k = kinds(x, depth + 1)
+                    if k is None:
+                        return None
+                    out |= k
+                return out
+            if isinstance(e, (ast.SetComp, ast.ListComp, ast.GeneratorExp)):
+                return kinds_in_comp(e.elt, e, depth)
+            if isinstance(e, ast.DictComp):
+                return kinds_in_comp(e.key, e, depth)
+            if isinstance(e, ast.Dict):
+                out = set()
+                for x in e.keys:
+                    k = kinds(x, depth + 1) if x is not None else None
+                    if k is None:
+                        return None
+                    out |= k
+                return out
+            if isinstance(e, ast.Call) and isinstance(e.func, ast.Name) and e.func.id in ('set', 'list', 'sorted', 'tuple'):
+                if not e.args:
+                    return adds_to(e, depth)
+                return elem_kinds(e.args[0], depth + 1)
+            if isinstance(e, ast.Call) and isinstance(e.func, ast.Attribute) and e.func.attr == 'keys' and not e.args:
+                return elem_kinds(e.func.value, depth + 1)
+            if isinstance(e, ast.Name):
+                out = set()
+                found = False
+                for n in ast.walk(fn):
+                    if isinstance(n, (ast.Assign, ast.AnnAssign)) and getattr(n, 'value', None) is not None:
+                        tg = n.targets[0] if isinstance(n, ast.Assign) else n.target
+                        if isinstance(tg, ast.Name) and tg.id == e.id:
+                            found = True
+                            k = elem_kinds(n.value, depth + 1)
+                            if k is None:
+                                return None
+                            out |= k
+                    if isinstance(n, ast.Call) and isinstance(n.func, ast.Attribute) and isinstance(n.func.value, ast.Name) \
+                            and n.func.value.id == e.id and n.func.attr in ('add', 'append') and len(n.args) == 1:
+                        found = True
+                        k = kinds(n.args[0], depth + 1)
+                        if k is None:
+                            return None
+                        out |= k
+                    if isinstance(n, ast.Call) and isinstance(n.func, ast.Attribute) and isinstance(n.func.value, ast.Name) \
+                            and n.func.value.id == e.id and n.func.attr in ('update', 'extend', 'union') and len(n.args) == 1:
+                        found = True
+                        k = elem_kinds(n.args[0], depth + 1)
+                        if k is None:
+                            return None
+                        out |= k
+                return out if found else None
+            return None
+
+        def adds_to(e, depth):
+            return set()
+
+        def kinds_in_comp(elt: ast.AST, comp, depth: int) -> set[str] | None:
+            c = col_of(elt)
+            if c is not None:
+                return {c}
+            return kinds(elt, depth + 1)
+        for call in ast.walk(fn):
+            if not (isinstance(call, ast.Call) and isinstance(call.func, ast.Attribute)
+                    and call.func.attr in ('get', 'get_one', 'filter_by', 'get_all', 'search')):
+                continue
+            recv = call.func.value
+            mname = recv.attr if isinstance(recv, ast.Attribute) else (recv.id if isinstance(recv, ast.Name) else None)
+            if call.func.attr == 'filter_by':
+                mname = next((x.attr if isinstance(x, ast.Attribute) else x.id for x in ast.walk(recv)
+                              if isinstance(x, (ast.Attribute, ast.Name))
+                              and (x.attr if isinstance(x, ast.Attribute) else x.id) in models), None)
+            m = models.get(mname or '')
+            if m is None:
+                continue
+            for kw in call.keywords:
+                if kw.arg is None or kw.arg not in m.columns:
+                    continue
+                ks = kinds(kw.value)
+                if not ks:
+                    continue
+                col = kw.arg
+                fk_cols = {c.name for mm in models.values() for c in mm.columns.values() if c.fk}
+                # identities only: primary and foreign keys have a kind; names and other texts are
+                # compared by content (MediaFile.content_type holds a ContentType.name)
+                if not (col == 'pk' or col in fk_cols or any(k == 'pk' or k in fk_cols for k in ks)):
+                    continue
+                n_sites += 1
+
+                def compatible(k: str) -> bool:
+                    if k == col:
+                        return True
+                    if col == 'pk' and k in fk_cols and k.endswith('_pk'):
+                        return True
+                    if k == 'pk' and col in fk_cols and col.endswith('_pk'):
+                        return True
+                    return False
+                key = f'{m.cls}.{call.func.attr}({col}={norm(kw.value)[:30]})'
+                construct = f'{f.rel}::{(f.cls.name + ".") if f.cls is not None else ""}{f.name}'
+                if all(compatible(k) for k in ks):
+                    rep.ok(rid, construct, key, f'value kinds {sorted(ks)}')
+                else:
+                    bad = sorted(k for k in ks if not compatible(k))
+                    rep.fail(rid, construct, key,
+                             f'`{short(call, 60)}` looks {m.cls} rows up by `{col}` with values read from the column(s) '
+                             f'{bad}: a different kind of value, so an unrelated row (or none) is found - and what '
+                             'is done with it (here: deleted / edited) hits a row the operation does not own', call)
+    if n_sites < 2:
+        raise AnalysisError(f'only {n_sites} model lookups with a traceable value kind')
+
+
 def analyse(rep: Report) -> None:
     rep.explanation = (
         'The ORM schema (foreign keys, relationships with cascades, association table, unique '
@@ -582,6 +753,7 @@ def analyse(rep: Report) -> None:
     rep.rule('R17.5', 'delete cascades follow ownership (one-to-many) only', floor=5)
     rep.rule('R17.4', 'replace-on-upload deletes row and file together and links the new rows', floor=4)
     rep.rule('R17.6', 'a row is deleted and its replacement added in different flushes', floor=1)
+    rep.rule('R17.7', 'rows are looked up by values of the kind the column holds', floor=2)
     idx = Index(rep.repo)
     cg = CallGraph(idx)
     eff = Effects(idx, cg)
@@ -602,3 +774,4 @@ def analyse(rep: Report) -> None:
     r17_3(rep, idx, cg)
     r17_4(rep, models)
     r17_6(rep, idx, models, sites)
+    r17_7(rep, idx, models)
